@@ -252,4 +252,27 @@ VARIANTS = [
         {"file": BC, "old": "class Circuit:\n", "new": "def _table_key(m):\n    return m.packet_id, m.direction\n\n\nclass Circuit:\n"},
         {"file": BC, "old": "                self.unacked_reliable[(message.direction, message.packet_id)] = ReliableResendInfo(\n",
          "new": "                self.unacked_reliable[_table_key(message)] = ReliableResendInfo(\n"}]},
+    # ------------------------------------------------------------------ round 5
+    {"name": "R9 trackers built with a small literal window", "file": PC, "expect": "C05.R9",
+     "old": "        self.in_injections = InjectionTracker(0)\n", "new": "        self.in_injections = InjectionTracker(0, 256)\n"},
+    {"name": "P R9 window spelled out as the tracker's default", "file": PC, "expect": "silent",
+     "old": "        self.in_injections = InjectionTracker(0)\n        self.out_injections = InjectionTracker(0)\n",
+     "new": "        self.in_injections = InjectionTracker(0, maxlen=10_000)\n"
+            "        self.out_injections = InjectionTracker(last_seen_id=0, maxlen=20000)\n"},
+    {"name": "P R1 tracker pick through a named boolean", "file": PC, "expect": "silent",
+     "old": "        if direction == Direction.OUT:\n            return self.out_injections, self.in_injections\n",
+     "new": "        outbound = direction == Direction.OUT\n        if outbound:\n"
+            "            return self.out_injections, self.in_injections\n"},
+    {"name": "P R6 inverse walk as a counting comprehension", "file": PC, "expect": "silent",
+     "old": "        new_id = effective_id\n        for packet_id in reversed(self.injections):\n"
+            "            # Injected after this packet, doesn't affect its ID. Can't bail out here,\n"
+            "            # we're walking newest to oldest and older injections still count.\n"
+            "            if packet_id > new_id:\n                continue\n            new_id -= 1\n",
+     "new": "        new_id = effective_id\n        for packet_id in self.injections:\n            if packet_id > effective_id:\n"
+            "                break\n            new_id -= 1\n        _seen = [p for p in self.injections]\n"},
+    {"name": "R6 forward walk as next() that settles on an element too small", "file": PC, "expect": "C05.R6",
+     "old": "        for packet_id in self.injections:\n            if new_id < packet_id and new_id not in self.injections:\n"
+            "                break\n            new_id += 1\n",
+     "new": "        new_id = next((new_id + i for i, packet_id in enumerate(self.injections) if packet_id < new_id + i),\n"
+            "                      new_id + len(self.injections))\n"},
 ]
